@@ -761,6 +761,22 @@ def panics_int(b, op):
     return panics._int_const(b, op)
 
 
+def lexer_counters(b):
+    """the locals of lexer::tokenize that hold the running line and column: found by their role (the values stored in the `line` and
+    `col` fields of the Token that is built), not by their names"""
+    out = {}
+    for i, j, s in b.all_stmts():
+        if s[0] == "=" and s[2][0] == "agg" and isinstance(s[2][1], dict) and s[2][1].get("adt") == "ironplc_parser::token::Token":
+            ops = dict(zip(s[2][1]["fields"], s[2][2]))
+            for fld in ("line", "col"):
+                p = op_place(ops.get(fld)) if ops.get(fld) is not None else None
+                if p is not None:
+                    rt = b.root(p)
+                    if not [x for x in rt[1] if x != "*"]:
+                        out[fld] = rt[0]
+    return out
+
+
 def rule_linecol(ctx, rep, rid="R-C05-linecol"):
     """A token's (line, col) pair is only right if a new line restarts the column.  In lexer::tokenize: whenever `line` is advanced, `col`
     is re-based (assigned a value that does not depend on its old value) in the same iteration - before the line write (dominating it,
@@ -773,9 +789,9 @@ def rule_linecol(ctx, rep, rid="R-C05-linecol"):
         return
     b = lb[0]
     where0 = "%s:%d" % (b.f["file"], b.f["line"])
-    loc = {name: l for l, (ty, name) in enumerate(b.f["locals"]) if name in ("line", "col")}
+    loc = lexer_counters(b)
     if set(loc) != {"line", "col"}:
-        r.finding("lexer::tokenize|counters", "%s:%d" % (b.f["file"], b.f["line"]), "no locals named line and col")
+        r.finding("lexer::tokenize|counters", "%s:%d" % (b.f["file"], b.f["line"]), "cannot find the two counters that fill Token.line and Token.col")
         return
     LINE, COL = loc["line"], loc["col"]
 
